@@ -130,6 +130,14 @@ static double _GD_GetIndex(DIRFILE* D, gd_entry_t *E, int repr, double value,
             return sample;
           }
 
+          if (dir == -1) {
+            /* every sample probed up to the EOF equals the first one: the
+             * range is singular, as in the known-end case above */
+            _GD_SetError(D, GD_E_RANGE, GD_E_SINGULAR_RANGE, NULL, 0, NULL);
+            dreturn("%.15g", sample);
+            return sample;
+          }
+
           /* low is the EOF -- so, extrapolate */
           sample = _GD_Extrapolate(D, E, repr, value, low, 1);
           dreturn("%.15g", sample);
